@@ -2,9 +2,10 @@ use crate::engine::{entry, DynProperty};
 
 pub mod c01;
 pub mod c02;
+pub mod c03;
 pub mod frontends;
 pub mod selftest;
 
 pub fn registry() -> Vec<Box<dyn DynProperty>> {
-    vec![entry(c01::C01), entry(c02::C02)]
+    vec![entry(c01::C01), entry(c02::C02), entry(c03::C03)]
 }
